@@ -43,6 +43,13 @@ from secsgem.hsms.connection_state_machine import ConnectionState  # noqa: E402
 logging.disable(logging.CRITICAL)
 
 WAIT = 20.0  # bound of every wait (seconds); never reached unless the endpoint hangs
+WAIT_AFTER_STALL = 3.0  # once an endpoint of this process has hung, later waits use this bound ...
+MAX_STALLS = 10  # ... and after this many hung histories the process stops replaying further ones (they are reported as skipped)
+STALLS = 0
+
+
+def bound() -> float:
+    return WAIT if STALLS == 0 else WAIT_AFTER_STALL
 CTR0 = 1000  # the system counter every run starts from (the real one is random)
 UNSOL = 4242  # system bytes that never match an open request
 FALLBACK = 77  # what a "matching" token resolves to when nothing is open (so it is unsolicited)
@@ -233,7 +240,7 @@ class Endpoint:
 
         def target(*a):
             if self.hold_dispatch is not None:
-                self.hold_dispatch.wait(WAIT)
+                self.hold_dispatch.wait(bound())
             try:
                 orig_target(*a)
             except Exception as exc:  # noqa: BLE001
@@ -282,11 +289,15 @@ class Endpoint:
 
     # ---- waiting
     def wait_for(self, pred) -> bool:
-        end = time.time() + WAIT
+        """no answer within the bound is an observation (`stalled`), never a hang of the harness"""
+        global STALLS
+        end = time.time() + bound()
         with self.cv:
             while not pred():
                 left = end - time.time()
                 if left <= 0:
+                    if not self.stalled:
+                        STALLS += 1
                     self.stalled = True
                     return False
                 self.cv.wait(min(left, 0.002))  # some conditions (thread ended, queue removed) are not notified: poll
@@ -299,7 +310,7 @@ class Endpoint:
         th = self.owner.get(system)
         if th is not None:
             self.wait_for(lambda: system not in self.p._response_queues)
-            th.join(WAIT)
+            th.join(bound())
 
     # ---- linktest timers
     def stored_timer_pending(self) -> bool:
@@ -656,6 +667,8 @@ def run_race(policy: str):
         ep.hold_dispatch.set()
     ep.wait_for(lambda: ep.dispatched >= 1)
     ep.stalled = False if ep.dispatched >= 1 else ep.stalled
+    if ep.dispatched >= 1:  # handled: the Select.rsp is written before `select()`; give the frame the (short) time to appear
+        ep.wait_for(lambda: any(x[0] == "tx" for x in ep.obs) or ep.conn() == "SEL")
     frames = parse_frames(b"".join(x[1] for x in ep.obs if x[0] == "tx"))
     rsp = any(f["stype"] == 2 and f["sys"] == 55 for f in frames)
     raised = any(x[0] == "err" for x in ep.obs)
@@ -758,6 +771,8 @@ def work(job):
     """runs in a worker process: histories -> (active, aops, cops, impl answer, oracle findings, stats)"""
     out = []
     for active, aops in job:
+        if STALLS >= MAX_STALLS:
+            break  # the endpoint hangs again and again: the hung histories found so far are the finding, the rest is reported as skipped
         cops, recs, final = run_history(active, aops)
         finds = []
         for i, r in enumerate(recs):
@@ -886,6 +901,9 @@ def main():
     t0 = time.time()
     results = run_all(histories, workers)
     res.notes.append(f"{len(histories)} histories on the implementation in {time.time() - t0:.1f}s with {workers} workers")
+    if len(results) < len(histories):
+        res.notes.append(f"{len(histories) - len(results)} histories NOT replayed: the endpoint kept hanging (>= {MAX_STALLS} histories per worker without an "
+                         "answer within the bound); see the c05-stall violation")
 
     lines, cases, answers = [], [], []
     seen_viol = {}
@@ -935,8 +953,13 @@ def main():
             ans, rsp, conn, stalled = run_race(pol)
             res.count(("race", pol, rep), sample={"accept race": pol, "answer": ans} if rep == 0 else None)
             res.bump("accept_race", f"{pol}: {ans}")
-            if stalled:
-                res.violate("c05-stall", f"accept race ({pol}): the buffered Select.req was never dispatched", {"kind": "race", "policy": pol})
+            if stalled or not rsp:
+                # "every Select request is answered by exactly one response ... (e.g. a Select.req that is already in flight when the connection
+                # is accepted)": the request was handed to `on_data` BEFORE `on_connected`, nothing follows it, and no Select.rsp came
+                res.violate("c05-accept-race", f"accept race ({pol}): the Select.req that was in the receive buffer when the connection was accepted "
+                            f"got no Select.rsp within {bound():.0f} s (endpoint {conn}, request {'never dispatched' if stalled else 'dispatched'})",
+                            {"kind": "race", "policy": pol}, expected="exactly one Select.rsp with its system bytes, then SELECTED", actual=ans)
+                break
             elif rsp and conn != "SEL":
                 res.violate("c05-accept-race", f"accept race ({pol}): Select.rsp was sent but the endpoint ended {conn}", {"kind": "race", "policy": pol},
                             expected="Select.rsp sent => SELECTED", actual=ans)
